@@ -101,15 +101,17 @@ theorem genP_field (fuel : Nat) (ih : GenP c pv rank F fuel) :
     | value v =>
       simp only [hout] at h ⊢
       have hk1 := kfExt_complete c fuel dfr fd.type rt fd.name fp.fieldNodes p v st0
-      rcases hS : complete c fuel dfr fd.type rt fd.name fp.fieldNodes p v st0 with ⟨r1, st1⟩
-      rw [hS] at h hk1
+      rcases hS0 : complete c fuel dfr fd.type rt fd.name fp.fieldNodes p v st0 with ⟨r1, st1⟩
+      rw [hS0] at h hk1
       simp only at hk1
+      have hS : complete c fuel dfr fd.type rt fp.fieldName fp.fieldNodes p v st0 = (r1, st1) := by
+        rw [← fpOK_fieldName hfp hfd]; exact hS0
       rcases hM1 : mComplete c alt0 fuel dfr fd.type rt fid fp p v mst0 with ⟨rM1, mst1⟩
       cases r1 with
       | ok j =>
         simp only [Prod.mk.injEq] at h
         obtain ⟨rfl, rfl⟩ := h
-        have hc := ih.complete dfr fd.type rt fd.name fid fp p v st0 mst0 _ _ hfp.nodes hS (by simp) (by rw [hkf, hk0])
+        have hc := ih.complete dfr fd.type rt fid fp p v st0 mst0 _ _ hfp.nodes hS (by simp) (by rw [hkf, hk0])
         simp only [CompleteRel, hM1] at hc
         obtain ⟨x, hx, hsv⟩ := hc
         subst hx
@@ -120,7 +122,7 @@ theorem genP_field (fuel : Nat) (ih : GenP c pv rank F fuel) :
           by_cases hnn : fd.type.isNonNull = true
           · simp only [hnn, if_true, Prod.mk.injEq] at h; rw [h.2, hkf, hk0]
           · simp only [hnn, Bool.false_eq_true, if_false, Prod.mk.injEq] at h; rw [h.2, hkf, hk0]
-        have hc := ih.complete dfr fd.type rt fd.name fid fp p v st0 mst0 _ _ hfp.nodes hS (by simp) hkS
+        have hc := ih.complete dfr fd.type rt fid fp p v st0 mst0 _ _ hfp.nodes hS (by simp) hkS
         simp only [CompleteRel, hM1] at hc
         by_cases hnn : fd.type.isNonNull = true
         · simp only [hnn, if_true, Prod.mk.injEq] at h
@@ -138,15 +140,15 @@ theorem genP_field (fuel : Nat) (ih : GenP c pv rank F fuel) :
         exact absurd h.1.symm hr
 
 theorem genP_items (fuel : Nat) (ih : GenP c pv rank F fuel) :
-    ∀ dfr item rt fname fid fp p xs i accS acc st mst rS stS, (∀ x ∈ fp.nodes, NodeOK c pv rank x.1 x.2) →
+    ∀ dfr item rt fid fp p xs i accS acc st mst rS stS, (∀ x ∈ fp.nodes, NodeOK c pv rank x.1 x.2) →
     SVl c pv rank F acc accS →
-    completeItems c (fuel + 1) dfr item rt fname fp.fieldNodes p xs i accS st = (rS, stS) → rS ≠ .fuelOut →
+    completeItems c (fuel + 1) dfr item rt fp.fieldName fp.fieldNodes p xs i accS st = (rS, stS) → rS ≠ .fuelOut →
     stS.kfThunk = st.kfThunk →
     match rS with
     | .ok js => ∃ ys, (mItems c alt0 (fuel + 1) dfr item rt fid fp p xs i acc mst).1 = .ok ys ∧ SVl c pv rank F ys js
     | .fail => (mItems c alt0 (fuel + 1) dfr item rt fid fp p xs i acc mst).1 = .fail
     | .fuelOut => False := by
-  intro dfr item rt fname fid fp p xs i accS acc st mst rS stS hn hacc h hr hkf
+  intro dfr item rt fid fp p xs i accS acc st mst rS stS hn hacc h hr hkf
   cases xs with
   | nil =>
     simp only [completeItems, Prod.mk.injEq] at h
@@ -156,48 +158,48 @@ theorem genP_items (fuel : Nat) (ih : GenP c pv rank F fuel) :
   | cons x xs =>
     simp only [completeItems] at h
     simp only [mItems]
-    have hk1 := kfExt_complete c fuel dfr item rt fname fp.fieldNodes (p ++ [.idx i]) x st
-    rcases hS : complete c fuel dfr item rt fname fp.fieldNodes (p ++ [.idx i]) x st with ⟨r1, st1⟩
+    have hk1 := kfExt_complete c fuel dfr item rt fp.fieldName fp.fieldNodes (p ++ [.idx i]) x st
+    rcases hS : complete c fuel dfr item rt fp.fieldName fp.fieldNodes (p ++ [.idx i]) x st with ⟨r1, st1⟩
     rw [hS] at h hk1
     simp only at hk1
     rcases hM1 : mComplete c alt0 fuel dfr item rt fid fp (p ++ [.idx i]) x mst with ⟨rM1, mst1⟩
     cases r1 with
     | ok j =>
       simp only at h
-      have hk2 := kfExt_items c fuel dfr item rt fname fp.fieldNodes p xs (i + 1) (accS ++ [j]) st1
+      have hk2 := kfExt_items c fuel dfr item rt fp.fieldName fp.fieldNodes p xs (i + 1) (accS ++ [j]) st1
       rw [h] at hk2
       simp only at hk2
       obtain ⟨hkA, hkB⟩ := KfExt.same hk1 hk2 hkf
-      have hc := ih.complete dfr item rt fname fid fp (p ++ [.idx i]) x st mst _ _ hn hS (by simp) hkA
+      have hc := ih.complete dfr item rt fid fp (p ++ [.idx i]) x st mst _ _ hn hS (by simp) hkA
       simp only [CompleteRel, hM1] at hc
       obtain ⟨y, hy, hsv⟩ := hc
       subst hy
       simp only [hM1]
-      exact ih.items _ _ _ _ _ _ _ _ _ _ _ _ mst1 _ _ hn (svl_append hsv hacc) h hr hkB
+      exact ih.items _ _ _ _ _ _ _ _ _ _ _ mst1 _ _ hn (svl_append hsv hacc) h hr hkB
     | fail =>
       simp only at h
       by_cases hnn : item.isNonNull = true
       · simp only [hnn, if_true, Prod.mk.injEq] at h
         obtain ⟨rfl, rfl⟩ := h
-        have hc := ih.complete dfr item rt fname fid fp (p ++ [.idx i]) x st mst _ _ hn hS (by simp) hkf
+        have hc := ih.complete dfr item rt fid fp (p ++ [.idx i]) x st mst _ _ hn hS (by simp) hkf
         simp only [CompleteRel, hM1] at hc
         rcases hc with hc | ⟨cl, _, _, hnull, _⟩
         · subst hc; simp only [hM1, hnn, if_true]
         · rw [hnn] at hnull; cases hnull
       · simp only [hnn, Bool.false_eq_true, if_false] at h
-        have hk2 := kfExt_items c fuel dfr item rt fname fp.fieldNodes p xs (i + 1) (accS ++ [.null]) st1
+        have hk2 := kfExt_items c fuel dfr item rt fp.fieldName fp.fieldNodes p xs (i + 1) (accS ++ [.null]) st1
         rw [h] at hk2
         simp only at hk2
         obtain ⟨hkA, hkB⟩ := KfExt.same hk1 hk2 hkf
-        have hc := ih.complete dfr item rt fname fid fp (p ++ [.idx i]) x st mst _ _ hn hS (by simp) hkA
+        have hc := ih.complete dfr item rt fid fp (p ++ [.idx i]) x st mst _ _ hn hS (by simp) hkA
         simp only [CompleteRel, hM1] at hc
         rcases hc with hc | ⟨cl, hcl, _, _, hwit⟩
         · subst hc
           simp only [hM1, hnn, Bool.false_eq_true, if_false]
-          exact ih.items _ _ _ _ _ _ _ _ _ _ _ _ mst1 _ _ hn (svl_append (.leaf _) hacc) h hr hkB
+          exact ih.items _ _ _ _ _ _ _ _ _ _ _ mst1 _ _ hn (svl_append (.leaf _) hacc) h hr hkB
         · subst hcl
           simp only [hM1]
-          exact ih.items _ _ _ _ _ _ _ _ _ _ _ _ mst1 _ _ hn (svl_append (.deferred hwit) hacc) h hr hkB
+          exact ih.items _ _ _ _ _ _ _ _ _ _ _ mst1 _ _ hn (svl_append (.deferred hwit) hacc) h hr hkB
     | fuelOut =>
       simp only [Prod.mk.injEq] at h
       exact absurd h.1.symm hr
